@@ -18,6 +18,12 @@ def drive(run, name, scens, backend="sse2", **kw):
     return run.trace(name, backend, ["drive", "--seed", str(run.seed)] + scens, **kw)
 
 
+def job(run, name, scens, backend="sse2", **kw):
+    d = {"name": name, "backend": backend, "args": ["drive", "--seed", str(run.seed)] + scens}
+    d.update(kw)
+    return d
+
+
 # ------------------------------------------------------------------------------------------------
 def c01(run):
     quick = run.tier == Q
